@@ -1058,14 +1058,23 @@ class Harness:
                     await h.susp("sleeper")
                 h.sleeper_body(place, s)
 
+            def requested(s):
+                # (noted when the sleeper is CALLED: what comes back still has to be awaited for the time to pass)
+                h.cur.trace.append(("sleep-req", place, s, h.now()))
+
             if kind == "lambda":
                 # returns an awaitable without being a coroutine function
-                return lambda s: asl(s)
+                def lam(s):
+                    requested(s)
+                    return asl(s)
+
+                return lam
             if kind == "callable":
 
                 class Sleeper:
-                    async def __call__(self, s):
-                        await asl(s)
+                    def __call__(self, s):
+                        requested(s)
+                        return asl(s)
 
                 return Sleeper()
             return asl
